@@ -130,7 +130,7 @@ spec fn decoded_at(bytes: Seq<u8>, pos: nat, b8: Seq<u8>) -> Option<Seq<u8>> {
     // no precondition: since commit 0a1edf6 the u32 end offset is computed with `checked_add` and an offset that does not fit is a
     // FormatError (on the pre-fix text the two `+` overflow obligations fail)
     ensures
-        final(reader).bytes() == old(reader).bytes(),
+        /*@AUX*/ final(reader).bytes() == old(reader).bytes(),
         r is Ok ==> ({
             let b = old(reader).bytes(); let p = old(reader).pos(); let clen = le3(buf8@, 1);
             // the payload was read, it decodes to some d ...
@@ -294,17 +294,17 @@ fn vx_checked_prefix(prefixsum: u32, length: usize) -> (r: Result<u32, CasObject
             &&& /*@C08*/ cas.info.unpacked_chunk_offsets@.len() == n
                 && forall|i: int| 0 <= i < n ==> cas.info.unpacked_chunk_offsets@[i] == len_sum(chunk_hash_and_size@, i + 1)
             &&& /*@C08*/ len_sum(chunk_hash_and_size@, n as int) <= u32::MAX
-            &&& /*@C07*/ cas.info.boundaries_version == CAS_OBJECT_FORMAT_BOUNDARIES_VERSION && info_offsets_filled(cas.info)
+            &&& /*@C07,C08*/ cas.info.boundaries_version == CAS_OBJECT_FORMAT_BOUNDARIES_VERSION && info_offsets_filled(cas.info)
         }),
         // a total that does not fit is rejected with a format error (never wrapped)
         /*@C08*/ len_sum(chunk_hash_and_size@, chunk_hash_and_size@.len() as int) > u32::MAX ==> r.created() is None,
 //@ loop 1
         invariant
-            vx_c@.len() == vx_j, forall|i: int| 0 <= i < vx_j ==> vx_c@[i] == chunk_hash_and_size@[i].hash,
+            /*@C07,C08*/ vx_c@.len() == vx_j, forall|i: int| 0 <= i < vx_j ==> vx_c@[i] == chunk_hash_and_size@[i].hash,
 //@ loop 2
         invariant
-            unpacked_offset == len_sum(chunk_hash_and_size@, vx_j as int),
-            vx_c@.len() == vx_j, forall|i: int| 0 <= i < vx_j ==> vx_c@[i] == len_sum(chunk_hash_and_size@, i + 1),
+            /*@C08*/ unpacked_offset == len_sum(chunk_hash_and_size@, vx_j as int),
+            /*@C08*/ vx_c@.len() == vx_j, forall|i: int| 0 <= i < vx_j ==> vx_c@[i] == len_sum(chunk_hash_and_size@, i + 1),
 //@ end
 
 // ==== the public wrapper: format errors of the streaming validator become rejections ==========================================================
@@ -337,7 +337,7 @@ fn _validate_cas_object_from_async_read<R: AsyncRead + Unpin>(reader: &mut R, ha
 //@ subst `Result<Option<(CasObject, Option<usize>)>>` => `Result<Option<(CasObject, Option<usize>)>, CasObjectError>` :: expansion of the crate-local alias `type Result<T>`
 //@ contract
     ensures
-        final(reader).bytes() == old(reader).bytes(),
+        /*@AUX*/ final(reader).bytes() == old(reader).bytes(),
         // exactly the inner result with format errors turned into `Ok(None)`: accepted values and non-format errors pass through unchanged
         /*@C08*/ exists|inner: Result<(CasObject, Option<usize>), CasObjectError>| stream_validation_result(old(reader).bytes(), old(reader).pos(), *hash, inner)
             && match inner {
